@@ -368,7 +368,9 @@ def step (d : DState) (line : String) : DState × String :=
         let ctx0 : Ctx := { q := d.q, now := now0, impl := implV }
         let deadlineIn (lo hi : Int) : Bool := d.st.heap.any fun (_, db) => db.keys.any fun (_, e) =>
           match e.exp with | some dl => decide (lo ≤ dl) && decide (dl ≤ hi) | none => false
-        let straddles : Bool := deadlineIn now0 now1
+        -- … or a whole second begins between the two clock readings: the commands that take a deadline as a
+        -- Unix time in seconds (EXAT, EXPIREAT) add the difference to the clock reading, second by second
+        let straddles : Bool := deadlineIn now0 now1 || decide (now0 / 1000000000 != now1 / 1000000000)
         let lowStraddles : Bool := deadlineIn (now0 - slack) (now0 - 1)
         let oA := dispatch ctx0 d.st c argv
         let fits (o : Out) : Bool := match implV with
